@@ -11,6 +11,7 @@
 (*                link; an input whose coin is not known yet is remembered and linked when the    *)
 (*                coin arrives (either arrival order).  A transaction that neither spends a known *)
 (*                coin nor pays the wallet is none of the wallet's business and is not stored.    *)
+(*   SetMined     set_transaction_status(txid, Mined(h)): a known transaction is (now) mined at h. *)
 (* A rewind (truncate_to_height) un-mines every transaction above the height it settles on and    *)
 (* keeps coins and links.                                                                         *)
 (*                                                                                                *)
@@ -96,6 +97,12 @@ StoreFullTx(st, tp, t, ins, outs, h, e) ==
                   links |-> st.links \cup { << c, t >> : c \in known },
                   smap  |-> st.smap \cup { << t, c >> : c \in ins \ known }]
     IN  { [st1 EXCEPT !.links = @ \cup L] : L \in LinkChoices(st1, newc) }
+
+\* set_transaction_status(t, Mined(h)): how a client tells the wallet that a transaction it asked about was mined.
+\* Only the transaction row changes (no row: nothing happens); links are neither created nor removed.
+SetMined(st, t, h) ==
+    IF t \notin DOMAIN st.ttx THEN st
+    ELSE [st EXCEPT !.ttx = Put(st.ttx, t, [st.ttx[t] EXCEPT !.mined = h, !.minobs = MinN(@, h)])]
 
 \* truncate_to_height settled on `to`: every transaction mined above it is un-mined; nothing else changes
 Truncate(st, to) ==
